@@ -236,6 +236,45 @@ func AdversaryConnMode(protos []string, chain [][]byte, keyIdx int, holds, notTL
 	return server
 }
 
+// RogueServerConn is the native twin of the client-side handshake model's peer: the client end of a connection
+// whose other end is a crypto/tls server that selects ALPN value proto, presents chain, signs with keyPkcs8 if it
+// holds the leaf key (with an unrelated key otherwise) and, if asked, requests a client certificate announcing the
+// given CAs. Under the engine the call is intercepted and returns nil: the model reads the peer struct.
+func RogueServerConn(proto string, chain [][]byte, keyPkcs8 []byte, holds, requestsClientCert bool, caDers [][]byte) net.Conn {
+	server, client := connPair()
+	go func() {
+		var key any
+		if holds {
+			k, err := x509.ParsePKCS8PrivateKey(keyPkcs8)
+			if err != nil {
+				panic(err)
+			}
+			key = k
+		} else {
+			key = edKey(7)
+		}
+		cfg := &tls.Config{NextProtos: []string{proto}, MinVersion: tls.VersionTLS13,
+			Certificates: []tls.Certificate{{Certificate: chain, PrivateKey: key}}}
+		if requestsClientCert {
+			cfg.ClientAuth = tls.RequireAnyClientCert
+			cfg.ClientCAs = x509.NewCertPool()
+			for _, der := range caDers {
+				if c, err := x509.ParseCertificate(der); err == nil {
+					cfg.ClientCAs.AddCert(c)
+				}
+			}
+		}
+		ts := tls.Server(server, cfg)
+		_ = server.SetDeadline(time.Now().Add(5 * time.Second))
+		_ = ts.Handshake()
+		buf := make([]byte, 1)
+		_ = server.SetReadDeadline(time.Now().Add(300 * time.Millisecond))
+		_, _ = ts.Read(buf)
+		_ = server.Close()
+	}()
+	return client
+}
+
 // connPair returns the two ends of a buffered duplex connection (a loopback TCP connection: net.Pipe is
 // unbuffered, and a TLS server that sends an alert while the client is still writing its flight deadlocks on it).
 func connPair() (server, client net.Conn) {
